@@ -90,6 +90,16 @@ theorem arg_text_decodes (O : Oracles) (hf : Upnp.C08.FloatOps.RoundTrips O) (ro
         | .ok w => w == Upnp.C08.expectBack row.ty v | .error _ => false) = true
   rw [h2]; simp
 
+/-- the same on the widened domain `inDom` (C08's `rtDomain`, plus a `datetime` given for a `date`
+    argument): rendered, and the rendered text decodes to the supplied value -/
+theorem arg_text_decodes_inDom (O : Oracles) (hf : Upnp.C08.FloatOps.RoundTrips O) (row : TypeRow)
+    (hrow : row ∈ C08Types.rows) (v : PyVal) (hv : inDom row.ty v = true) :
+    ∃ t, coerceUpnp O row v = .ok t
+      ∧ xmlDecodeText (escape C06Types.escapeExtra t) = some t
+      ∧ decodesTo O row t v = true := by
+  obtain ⟨t, h1, h2⟩ := roundtrip_inDom O hf row hrow v hv
+  exact ⟨t, h1, escape_lossless t, h2⟩
+
 /-! ### URL -/
 
 /-- a control URL written as an absolute path is resolved to the device URL's scheme and authority
@@ -407,13 +417,62 @@ example :
   refine ⟨hrows d hd, ?_⟩
   have hall : ∀ d ∈ exAction.inArgs,
       (match exKw.lookup d.name with
-       | some w => Upnp.C08.rtDomain d.var.row.ty w
+       | some w => inDom d.var.row.ty w
        | none => true) = true := by
     decide +kernel
   intro v hv
   have := hall d hd
   rw [hv] at this
   exact this
+/-- a `datetime` given for a `date` argument is inside the proved domain (`inDom`), is rendered with
+    `isoformat()` and decodes back to itself -/
+example :
+    inDom (rowOf "date").ty (.datetime ⟨987, 2, 28⟩ ⟨1, 2, 3⟩ (some (-330))) = true
+    ∧ (match coerceUpnp exO (rowOf "date") (.datetime ⟨987, 2, 28⟩ ⟨1, 2, 3⟩ (some (-330))) with
+       | .ok t => t == "0987-02-28T01:02:03-05:30".toList | .error _ => false) = true
+    ∧ decodesTo exO (rowOf "date") "0987-02-28T01:02:03-05:30".toList (.datetime ⟨987, 2, 28⟩ ⟨1, 2, 3⟩ (some (-330))) = true := by
+  refine ⟨?_, ?_, ?_⟩ <;> decide +kernel
+private def goodObs : Obs := modelObs genAnc (asyncCallSend exO C06Types.escapeExtra C06Types.nsAttrQuoted exAction exKw)
+
+/-- apply `f` to the argument elements inside Envelope/Body/action -/
+private def onArgs (f : List Xml → List Xml) : Xml → Xml
+  | .node e et [.node b bt [.node a at' args]] => .node e et [.node b bt [.node a at' (f args)]]
+  | x => x
+
+private def setHdr (g : Obs) (k v : String) : List (Str × Str) :=
+  g.headers.map fun p => if p.1 == k.toList then (p.1, v.toList) else p
+private def setTree (g : Obs) (f : List Xml → List Xml) : Option Xml := g.tree.map (onArgs f)
+
+private def badKw : Kwargs := ("DesiredVolume".toList, .int 101) :: exKw
+private def libErr : ExcInfo := { cls := "UpnpValueError", mro := genAnc "UpnpValueError" }
+
+/-- **The judge is not trivially true**: the model's observation passes, and each single deviation
+    from what the text demands is REJECTED by `C06.ok` (evaluated on the judge itself). -/
+example :
+    (fun (g : Obs) =>
+      [ ok exO exAction exKw g,
+        ok exO exAction exKw { g with sent := 2 },
+        ok exO exAction exKw { g with sent := 0 },
+        ok exO exAction exKw { g with method := "GET".toList },
+        ok exO exAction exKw { g with url := "http://192.168.1.10:8080/ctl/other".toList },
+        ok exO exAction exKw { g with headers := g.headers.filter (fun p => p.1 != "Host".toList) },
+        ok exO exAction exKw { g with headers := setHdr g "Host" "192.168.1.10" },
+        ok exO exAction exKw { g with headers := setHdr g "SOAPAction" "urn:acme&co:service:R\"C:1#SetVolume" },
+        ok exO exAction exKw { g with headers := setHdr g "Content-Type" "text/plain" },
+        ok exO exAction exKw { g with tree := none },
+        ok exO exAction exKw { g with tree := setTree g List.reverse },
+        ok exO exAction exKw { g with tree := setTree g (List.drop 1) },
+        ok exO exAction exKw { g with tree := setTree g (fun l => l ++ l.take 1) },
+        ok exO exAction exKw { g with tree := setTree g (List.map fun x => .node x.tag (some ['x']) x.children) },
+        -- refusal: nothing sent AND the library's error
+        ok exO exAction badKw { sent := 0, err := some libErr },
+        ok exO exAction badKw { sent := 0, err := some { cls := "RAW:ValueError", mro := [] } },
+        ok exO exAction badKw { sent := 0, err := none },
+        ok exO exAction badKw { g with err := some libErr },
+        ok exO exAction badKw g ]) goodObs
+    = [true, false, false, false, false, false, false, false, false, false, false, false, false, false,
+       true, false, false, false, false] := by
+  decide +kernel
 end Example
 
 
